@@ -165,3 +165,23 @@ theorem load_complete_distinct {sd : SchemaDoc} (h : Spec.WellFormed sd)
     (fun _ hb => spec_directive_eq hb hd)
 
 end Gql.Load
+
+#print axioms Gql.Load.load_declareTypes_ok_of_wf
+#print axioms Gql.Load.load_foldExtensions_ok_of_wf
+#print axioms Gql.Load.load_declareDirectives_ok_of_wf
+#print axioms Gql.Load.load_buildState_ok_of_wf
+#print axioms Gql.Load.spec_directive_eq_of_merged
+#print axioms Gql.Load.load_validateDirectiveUse_ok_of_wf
+#print axioms Gql.Load.load_validateArgs_ok_of_wf
+#print axioms Gql.Load.load_isCovariant_ok_of_wf
+#print axioms Gql.Load.load_validateImplements_ok_of_wf
+#print axioms Gql.Load.load_validateKindSpecific_ok_of_wf
+#print axioms Gql.Load.load_checkUniqueFields_ok_of_wf
+#print axioms Gql.Load.load_validateDefinition_ok_of_wf
+#print axioms Gql.Load.load_validateTypeDefinitions_ok_of_wf
+#print axioms Gql.Load.load_validateDirectiveDefinitions_ok_of_wf
+#print axioms Gql.Load.load_setRoots_ok_of_wf
+#print axioms Gql.Load.load_applySchemaDefs_ok_of_wf
+#print axioms Gql.Load.load_finish_ok_of_wf
+#print axioms Gql.Load.load_complete
+#print axioms Gql.Load.load_complete_distinct
